@@ -369,6 +369,130 @@ def correspond_huge(run, binary):
     return failures
 
 
+
+# ------------------------------------------------------------------ all three accessors, around the boundaries
+SRC_PREFIX = "C08.C08_model_is_translated_source"
+BIG = [2 ** 32, 2 ** 63, 2 ** 64 - 1]
+
+
+def accessor_family(run, deep=False):
+    """views of every index-computing representation over cheap (range), non-cheap (literal, mapped) and empty
+    bases, probed through get / get_lazy / get_cheap at the indices around every boundary"""
+    g = Gen(run.rng.fork("acc"))
+    bases = [lambda: ("range", 0, 4), lambda: g.lit(5, "lit"), lambda: g.lit(1, "comp"), lambda: g.lit(0, "lit"),
+             lambda: ("range", 0, -1), lambda: ("make", 3, 1), lambda: ("range", -2, 0)]
+    slices = [(None, None, None), (1, None, None), (None, -1, None), (1, 4, 2), (0, 5, 3), (2, 2, None),
+              (-3, None, 2), (1, 3, None), (0, None, 2), (4, 9, None)]
+    if deep:
+        slices += [(i, e, st) for i in (None, 1, 2) for e in (None, 3, 4, -1) for st in (None, 2, 3)]
+
+    def unary(mk):
+        out = [("slice", mk(), i, e, st, "idx" if (i, e, st) != (None, None, None) else "std") for i, e, st in slices]
+        out.append(("rev", mk()))
+        out += [("rep", mk(), n) for n in (0, 1, 2, 3)]
+        out += [("map", 2, mk()), ("mapi", 3, mk())]
+        return out
+    cases = []
+    for b in bases:
+        cases.append(b())
+        cases.extend(unary(b))
+        for b2 in bases[:4]:
+            cases.append(("cat", b(), b2()))
+    # linked concatenations (above the threshold) and views of them
+    for n in (999, 1000, 1001):
+        for mk in (lambda n=n: ("cat", ("range", 0, n - 1), g.lit(2, "lit")),
+                   lambda n=n: ("cat", g.lit(2, "comp"), ("range", 0, n - 1))):
+            cases.append(mk())
+            cases += [("rev", mk()), ("slice", mk(), -4, None, None, "idx"), ("slice", mk(), 1, None, 333, "idx"),
+                      ("rep", ("slice", mk(), -3, None, None, "idx"), 2)]
+    # depth 2: every unary view of a few unary views
+    inner = [("slice", ("range", 0, 6), 1, 6, 2, "idx"), ("rev", g.lit(4, "lit")), ("rep", ("range", 0, 1), 3),
+             ("rev", ("range", 0, 3)), ("slice", g.lit(5, "lit"), 1, None, None, "idx")]
+    if deep:
+        inner += unary(lambda: ("range", 0, 5))[:8] + unary(lambda: g.lit(4, "lit"))[:8]
+    for v in inner:
+        cases.extend(unary(lambda v=v: v))
+    return cases
+
+
+def correspond_accessors(run, binary, deep=False):
+    """SPEC (plain list) against get, get_lazy (thunk evaluated) and get_cheap of the real ArrValue"""
+    cases, seen = [], set()
+    for c in accessor_family(run, deep):
+        if op_js(c) not in seen:
+            seen.add(op_js(c))
+            cases.append(c)
+    model = core.coq_eval(IMPORTS, [f"spec {op_coq(c)}" for c in cases])
+    reqs, meta = [], []
+    for c, m in zip(cases, model):
+        if isinstance(m, tuple) and m and m[0] == "ERROR":
+            run.obligation("model.eval.accessors", False, str(m[1])[:300])
+            continue
+        spec = [elem_py(e) for e in m]
+        n = len(spec)
+        idx = sorted({i for i in [0, 1, 2, n - 2, n - 1, n, n + 1, n + 2, n + 5, 2 * n] + BIG if i >= 0})
+        ajs = op_js(c)
+        reqs.append({"code": ajs, "arrprobe_at": [str(i) for i in idx]})
+        meta.append((c, ajs, spec, idx))
+    outs = core.run_harness(binary, "eval", reqs)
+    failures = []
+    for (c, ajs, spec, idx), req, o in zip(meta, reqs, outs):
+        run.note_case("acc:" + ajs, True)
+        run.count("accessor-probe")
+        run.count(f"accessor-root:{c[0]}")
+        case = {"jsonnet": ajs, "op": repr(c), "request": req}
+        n = len(spec)
+
+        def fail(what, expected, got):
+            failures.append({"case": case, "summary": f"C08 {what}: {ajs[:200]}", "what": what,
+                             "expected": expected, "got": got})
+        if "ok" not in o or "at" not in o["ok"]:
+            fail("array expression did not evaluate (accessor probe)", {"len": n}, o)
+            continue
+        pr = o["ok"]
+        if int(pr["len"]) != n:
+            fail("length differs from the plain array", n, pr["len"])
+            continue
+        cheap_arr = bool(pr.get("is_cheap"))
+        for i, a in zip(idx, pr["at"]):
+            want = ("some", spec[i]) if i < n else None
+
+            def dec(x):
+                if x is None:
+                    return None
+                return ("some", core.decanon(x["v"])) if "v" in x else ("bad", x)
+            got = {k: dec(a[k]) for k in ("get", "lazy", "cheap")}
+            bad = [k for k in ("get", "lazy") if got[k] != want]
+            if got["cheap"] != want and (cheap_arr or got["cheap"] is not None):
+                bad.append("cheap")
+            if bad:
+                name = {"get": "get", "lazy": "get_lazy", "cheap": "get_cheap"}[bad[0]]
+                fail(f"{name}({i}) differs from the plain array (len {n}, is_cheap {cheap_arr})", want, got[bad[0]])
+                break
+    return failures
+
+def probe_known(run, binary):
+    """C08-slice-position-i32-min: `(-v) as usize` in ArrValue::slice's get_idx overflows for v = i32::MIN
+    (C08_source_slice_position_i32_min_refuted); Jsonnet's answer is the clamped slice"""
+    failures = []
+    progs = [("[1, 2, 3][-2147483648:]", [1.0, 2.0, 3.0]), ("[1, 2, 3][:-2147483648]", []),
+             ("std.slice([1, 2, 3], -2147483648, null, null)", [1.0, 2.0, 3.0]),
+             ("[1, 2, 3][-2147483647:]", [1.0, 2.0, 3.0])]
+    outs = core.run_harness(binary, "eval", [{"code": c} for c, _ in progs])
+    for (code, want), o in zip(progs, outs):
+        run.note_case("known:" + code, True)
+        run.count("slice-position-i32-min")
+        if "ok" in o and core.decanon(o["ok"]) == want:
+            continue
+        f = {"case": {"jsonnet": code, "request": {"code": code}}, "what": "slice with an extreme position",
+             "summary": f"C08 slice with an extreme position is not the clamped slice: {code}",
+             "expected": want, "got": o}
+        if "-2147483648" in code and "panic" in o and "negate with overflow" in o["panic"]:
+            f["known"] = "C08-slice-position-i32-min"
+        failures.append(f)
+    return failures
+
+
 # ------------------------------------------------------------------ the check
 EXTRA = 3
 
@@ -406,6 +530,8 @@ def check(run, terrs):
         return core.conclude(run, False, err, [], [])
     failures, model_diffs = correspond(run, binary, enumerate_cases(run))
     failures += correspond_huge(run, binary)
+    failures += correspond_accessors(run, binary)
+    failures += probe_known(run, binary)
     run.trusted = TRUSTED
     run.assumptions = ASSUMPTIONS
     return core.conclude(
@@ -416,6 +542,14 @@ def check(run, terrs):
 
 def search(run, binary):
     """deeper enumeration used when an obligation or the correspondence broke"""
+    src = [n for n, ok, _ in run.obligations if not ok and (n.startswith(SRC_PREFIX) or n == "translator.GenArr")]
+    if src:
+        # the hand model no longer equals the functions translated from arr/spec.rs + arr/mod.rs: probe every
+        # view kind through all three accessors around the boundary indices first
+        run.log(f"search: source-tie obligation(s) broke ({', '.join(src)[:200]}): targeted accessor probes")
+        f = correspond_accessors(run, binary, deep=True)
+        if f:
+            return f
     run.log("search: thorough-scope enumeration")
     old = run.tier
     run.tier = "thorough"
@@ -536,7 +670,8 @@ def replay(run, data):
     if not code:
         print(json.dumps(data, indent=1)[:3000])
         return 1
-    outs = core.run_harness(binary, "eval", [{"code": code, "arrprobe": EXTRA}])
+    req = f.get("case", {}).get("request") or {"code": code, "arrprobe": EXTRA}
+    outs = core.run_harness(binary, "eval", [req])
     print("jsonnet :", code)
     print("expected:", f.get("expected"))
     print("was     :", f.get("got"))
